@@ -11,6 +11,8 @@ judges the rows from their concrete text alone."""
 import json
 import os
 import random
+import shutil
+import tempfile
 
 from vlib import trace
 
@@ -42,6 +44,65 @@ def observe(rid, form, value):
             "text": chars(value) if form == "text" else [],
             "terms": [chars(t) for t in value] if form == "list" else [],
             "v1": observe_one(arg, P.V1), "v2": observe_one(arg, P.V2), "auto": observe_one(arg, P.AUTO_DETECT)}
+
+
+PROTO_FIELD = {"v1": "v1", "v2": "v2", "strict": "v2", "auto_detect": "auto", "default": "auto"}
+
+
+def run_history(cons, hows, scratch):
+    """Constructs the Configurations of `cons` (dicts proto, terms) one after the other in THIS process and returns,
+    per construction, what its config.tag_expression does (same observation format as observe_one).
+    hows[k]: how construction k is told its protocol: "kw" (keyword argument, enum member), "kwname" (keyword
+    argument, name) or "ini" (behave.ini in its working directory); "default" = it is told nothing.
+    The process-wide TagExpressionProtocol selection and the working directory are restored afterwards."""
+    from behave.configuration import Configuration
+    from behave.tag_expression import TagExpressionProtocol as P
+    from behave.tag_expression.parser import TagExpressionError
+    saved, cwd, home = P.current(), os.getcwd(), os.environ.get("HOME")
+    out = []
+    try:
+        P.use(P.DEFAULT)
+        for k, (c, how) in enumerate(zip(cons, hows)):
+            d = os.path.join(scratch, "p%d" % k)
+            os.makedirs(d)
+            os.chdir(d)
+            os.environ["HOME"] = d
+            args = ["--tags=" + t for t in c["terms"]]
+            kw = {}
+            if c["proto"] == "default":
+                kw["load_config"] = (how == "ini")          # an empty project directory / no config file at all
+            elif how == "ini":
+                with open("behave.ini", "w") as fh:
+                    fh.write("[behave]\ntag_expression_protocol = %s\n" % c["proto"])
+            else:
+                kw = {"load_config": False,
+                      "tag_expression_protocol": P.from_name(c["proto"]) if how == "kw" else c["proto"]}
+            try:
+                e = Configuration(args, **kw).tag_expression
+                out.append({"exc": "", "tee": False, "tt": [bool(e.check(list(x))) for x in SUBSETS]})
+            except (Exception, SystemExit) as x:
+                out.append({"exc": type(x).__name__, "tee": isinstance(x, TagExpressionError), "tt": []})
+            os.chdir(cwd)
+            shutil.rmtree(d, ignore_errors=True)
+    finally:
+        os.chdir(cwd)
+        if home is None:
+            os.environ.pop("HOME", None)
+        else:
+            os.environ["HOME"] = home
+        P.use(saved)
+    return out
+
+
+def history_rows(rid0, cons, hows, scratch):
+    """one row per construction: the usual row of its --tags arguments (list form), in which the observation
+    under the construction's own protocol is the one made through Configuration in the history"""
+    rows = []
+    for k, (c, o) in enumerate(zip(cons, run_history(cons, hows, scratch))):
+        row = observe(rid0 + k, "list", c["terms"])
+        row[PROTO_FIELD[c["proto"]]] = o
+        rows.append(row)
+    return rows
 
 
 def as_value(inp):
@@ -94,6 +155,8 @@ def build_inputs(cases, rnd, quick):
     """-> list of (form, value, meta)"""
     out = []
     for n, c in enumerate(cases):
+        if c["kind"] == "hist":
+            continue
         if c["kind"] == "cnf":
             f = c["f"]
             tag = {"family": "cnf", "f": f}
@@ -116,6 +179,11 @@ def build_inputs(cases, rnd, quick):
             tag = {"family": "v2", "tree_min": mn}
             out += [("text", mn, tag), ("text", full, tag), ("text", at, tag), ("text", " " + full + " ", tag),
                     ("list", [mn], tag), ("list", [full, "@b"], tag), ("list", ["a", mn], tag)]
+            # '@' directly after "(" / "not(" and the name directly before ")"
+            fat, mat = "".join(c["fullat"]), "".join(c["minat"])
+            tag = {"family": "v2-at", "tree_min": mn}
+            out += [("text", fat, tag), ("text", mat, tag), ("list", [mat, fat], tag),
+                    ("text", fat.replace("not (", "not("), tag), ("text", "(" + mat + ")", tag)]
             m = inject(rnd.choice([mn, full]), rnd)
             if m:
                 out.append(("text", m, {"family": "mixed-from-v2", "tree_min": mn}))
@@ -150,7 +218,10 @@ def report(chk, verdicts, byid, meta):
             if cause == "other":
                 sig += "|form=%s|family=%s" % (row["form"], m.get("family"))
             obs = {p: (row[p]["exc"] or "true on %d of %d subsets" % (sum(row[p]["tt"]), len(row[p]["tt"]))) for p in ("v1", "v2", "auto")}
-            chk.violation(clause, sig, "input=%s (%s) observed %s" % (json.dumps(m["input"]), row["form"], json.dumps(obs, sort_keys=True)),
+            hist = ""
+            if m.get("family") == "history":
+                hist = " as construction %d of the history %s" % (m["index"] + 1, json.dumps([[c["proto"], c["terms"]] for c in m["history"]]))
+            chk.violation(clause, sig, "input=%s (%s)%s observed %s" % (json.dumps(m["input"]), row["form"], hist, json.dumps(obs, sort_keys=True)),
                           {"form": row["form"], "input": m["input"], "meta": m})
 
 
@@ -171,7 +242,7 @@ def run(chk):
             chk.violation("C08.design." + name, "design:%s" % name, "TLC: invariant %s violated in TagExprV1_MC (%s)" % (name, cfg))
         for t in r.by_tag("CASE"):
             c = json.loads(t[1])
-            key = (c["kind"], json.dumps(c["f"] if c["kind"] == "cnf" else c["min"]))
+            key = (c["kind"], json.dumps(c.get("f") or c.get("min") or c.get("cons")))
             if key not in seen:             # the same formula / tree emitted by two configurations
                 seen.add(key)
                 cases.append(c)
@@ -191,6 +262,21 @@ def run(chk):
     for rid, (form, value, m) in enumerate(inputs, 1):
         rows.append(observe(rid, form, value))
         meta[rid] = dict(m, input=value)
+    # histories of Configuration constructions in this process (every history TLC emitted)
+    scratch = tempfile.mkdtemp(prefix="verif-c08-")
+    nhist = 0
+    try:
+        for c in cases:
+            if c["kind"] != "hist":
+                continue
+            cons = [{"proto": x["proto"], "terms": ["".join(t) for t in x["terms"]]} for x in c["cons"]]
+            hows = [rnd.choice(["kw", "kwname", "ini"]) for _ in cons]
+            nhist += 1
+            for k, row in enumerate(history_rows(len(rows) + 1, cons, hows, scratch)):
+                rows.append(row)
+                meta[row["id"]] = {"family": "history", "input": cons[k]["terms"], "history": cons, "hows": hows, "index": k}
+    finally:
+        shutil.rmtree(scratch, ignore_errors=True)
     TagExpressionProtocol.use(TagExpressionProtocol.DEFAULT)
     diverged = []
     verdicts = judge(chk, rows, diverged)
@@ -209,17 +295,20 @@ def run(chk):
         fam[m["family"]] = fam.get(m["family"], 0) + 1
     chk.rule = ("CNF formulas up to the bound (TLC, exhaustive; all 5 decoration styles x string/list at design level), per emitted "
                 "formula 2-3 styles x both shapes + a blank variant + 2 random decorations + 3-6 mixed texts; v2 trees x 7 renderings + "
-                "injected old-style operands; random formulas up to 4x4 over 7 names; every row = one input under V1, V2 and "
+                "injected old-style operands + 5 '@'-tight renderings; histories of 2-3 Configuration constructions x 5 protocol settings x 4 "
+                "tag lists (one row per construction); random formulas up to 4x4 over 7 names; every row = one input under V1, V2 and "
                 "AUTO_DETECT with the complete truth table over 2^5 tag subsets; distinct = distinct (shape, input)")
     chk.extra["distinct_nontrivial"] = len({(m["family"] == "probe", json.dumps(m["input"])) for m in meta.values()})
     chk.extra["cases_emitted_by_tlc"] = len(cases)
+    chk.extra["histories"] = nhist
     chk.extra["rows_by_family"] = fam
     chk.extra["design_witnesses"] = {"%s|%s" % k: len(v) for k, v in sorted(hits.items())}
     chk.assumptions = [
         "tag names of the v1 universe are not v2 keywords (and/or/not) and contain none of , : @ ( ) * ? [ \\ or whitespace, and do not start with - or ~",
         "pure v2 texts: operands do not start with - or ~ and contain no ',' or ':' (such one-word texts are v1 syntax)",
         "only blanks are used as whitespace; ':limit' numbers are consistent per tag name (conflicting limits raise, statement silent)",
-        "the meaning of a pure v2 text is what protocol V2 gives for it (C07 judges that); C08 judges the dispatch",
+        "the meaning of a pure v2 text is Eval of TagExpr.tla's own parse of that text (the v2 grammar proved in TagExpr_MC)",
+        "history rows: the observation under the construction's own protocol comes from Configuration(...).tag_expression in the history, the other two from make_tag_expression with an explicit protocol",
         "'@-b' (negation after '@', honoured by normalize_tag by accident, '@~b' is not) is not an old-style form of the statement: not judged",
     ]
 
@@ -236,7 +325,16 @@ def judge(chk, rows, diverged=None):
 
 def replay(chk, payload):
     p = payload["replay"]
-    row = observe(1, p["form"], p["input"])
+    m = p.get("meta") or {}
+    if m.get("family") == "history":
+        scratch = tempfile.mkdtemp(prefix="verif-c08-")
+        try:
+            row = history_rows(1, m["history"], m["hows"], scratch)[m["index"]]
+            row["id"] = 1
+        finally:
+            shutil.rmtree(scratch, ignore_errors=True)
+    else:
+        row = observe(1, p["form"], p["input"])
     verdicts = judge(chk, [row])
     chk.impl_traces = 1
     meta = {1: dict(p.get("meta") or {}, input=p["input"])}
